@@ -47,8 +47,8 @@ ASSUMPTIONS = [
     "PathCapable leaves without get_resources_as_linkheader contribute no links",
 ]
 REQUIRED_MONITORS = {
-    "quick": {"route_handler": 30000, "route_404": 40000, "stripped_path": 30000, "request_uri": 30000, "nested_hop": 10000, "two_level_hop": 2500, "longest_prefix": 1000, "exact_over_subsite": 1500, "empty_remainder_decisive": 200, "after_add": 8000, "after_remove": 3000, "wkc_listing": 7000, "wkc_listing_nested": 4000, "wkc_filter": 8000, "wkc_filter_star": 4000, "wkc_hidden": 3000, "path_sweep": 4000},
-    "thorough": {"route_handler": 900000, "route_404": 1200000, "stripped_path": 900000, "request_uri": 900000, "nested_hop": 300000, "two_level_hop": 75000, "longest_prefix": 30000, "exact_over_subsite": 45000, "empty_remainder_decisive": 6000, "after_add": 240000, "after_remove": 90000, "wkc_listing": 210000, "wkc_listing_nested": 120000, "wkc_filter": 240000, "wkc_filter_star": 120000, "wkc_hidden": 90000, "path_sweep": 120000},
+    "quick": {"route_handler": 30000, "route_404": 40000, "stripped_path": 30000, "request_uri": 30000, "nested_hop": 10000, "two_level_hop": 2500, "longest_prefix": 1000, "exact_over_subsite": 1500, "empty_remainder_decisive": 200, "after_add": 8000, "after_remove": 3000, "wkc_listing": 7000, "wkc_listing_nested": 4000, "wkc_filter": 8000, "wkc_filter_star": 4000, "wkc_hidden": 3000, "path_sweep": 4000, "direct_render": 50000},
+    "thorough": {"route_handler": 900000, "route_404": 1200000, "stripped_path": 900000, "request_uri": 900000, "nested_hop": 300000, "two_level_hop": 75000, "longest_prefix": 30000, "exact_over_subsite": 45000, "empty_remainder_decisive": 6000, "after_add": 240000, "after_remove": 90000, "wkc_listing": 210000, "wkc_listing_nested": 120000, "wkc_filter": 240000, "wkc_filter_star": 120000, "wkc_hidden": 90000, "path_sweep": 120000, "direct_render": 1500000},
 }
 EXHAUSTIVE = {"request_paths_up_to_length_3": "in every 8th history, all 85 Uri-Path lists of length <= 3 over {a,b,c,''} are requested against the final tree"}
 WORKER_TIMEOUT = {"quick": 600, "thorough": 7200}
@@ -567,6 +567,7 @@ class Scenario:
         m = await self.client.request(method, opts)
         ran = list(self.hlog)
         code = rc.code_str(m.code)
+        await self.do_direct(method, path, host_opt, query, expected, tr)
         desc = {"method": "GET" if method == 1 else "POST", "uri_path_options": list(path), "uri_host_option": host_opt, "uri_query_options": list(wire_query)}
         exp_desc = sorted(("4.04" if e == NF else "rendered by %s seeing Uri-Path %r" % (e[1], list(e[2]))) for e in expected)
 
@@ -642,6 +643,57 @@ class Scenario:
             viol("uri/get_request_uri-raises", "get_request_uri() raised %s in the handler" % h["uri_exc"], expected_uri=want)
         elif h["uri"] != want:
             viol("uri/original-uri-not-reconstructed" + ("/nested" if "hop" in tr else ""), "get_request_uri() in the handler gives %r, the client requested %r" % (h["uri"], want), expected_uri=want)
+
+    async def do_direct(self, method, path, host_opt, query, expected, tr):
+        """The same request handed to the root site's other routing entry points, Site.render() (what a wrapper
+        resource or a proxy calls) and Site.needs_blockwise_assembly(): they must route like the served path."""
+        import aiocoap
+        from aiocoap import error
+        from aiocoap.message import Direction
+
+        rep = self.rep
+        root = self.real[id(self.sites[0])]
+        msg = aiocoap.Message(code=aiocoap.GET if method == 1 else aiocoap.POST, uri_path=list(path), uri_query=list(query))
+        if host_opt:
+            msg.opt.uri_host = host_opt
+        msg.direction = Direction.INCOMING
+        desc = {"method": "GET" if method == 1 else "POST", "uri_path_options": list(path), "entry": "Site.render"}
+        exp_desc = sorted(("4.04" if e == NF else "rendered by %s seeing Uri-Path %r" % (e[1], list(e[2]))) for e in expected)
+        del self.hlog[:]
+        outcome = None
+        try:
+            resp = await root.render(msg)
+            outcome = "response"
+        except error.NotFound:
+            outcome = "4.04"
+        except Exception as e:
+            outcome = "raised " + type(e).__name__
+        ran = list(self.hlog)
+        del self.hlog[:]
+        rep.monitor("direct_render")
+
+        def viol(key, what):
+            self.violation(key, what, request=desc, expected_one_of=exp_desc, outcome=outcome, handlers_that_ran=[{**h, "path": list(h["path"])} for h in ran], decided_by=tr)
+
+        if len(ran) > 1:
+            viol("route-direct/several-handlers-ran", "Site.render() had one request rendered by %d handlers" % len(ran))
+        elif expected == {NF}:
+            if ran or outcome != "4.04":
+                viol("route-direct/unregistered-path-not-404", "Site.render() of a path matching no registration gave %s (handlers run: %d) instead of NotFound" % (outcome, len(ran)))
+        elif not ran:
+            if not (outcome == "4.04" and (NF in expected)):
+                viol("route-direct/registered-path-not-rendered", "Site.render() of a path with a registration ran no handler (%s)" % outcome)
+        else:
+            h = ran[0]
+            if ("run", h["id"], h["path"]) not in expected:
+                viol("route-direct/wrong-handler-or-stripped-path", "Site.render() had the request rendered by %s seeing Uri-Path %r" % (h["id"], list(h["path"])))
+        try:
+            nba = await root.needs_blockwise_assembly(msg)
+            if nba not in (True, False):
+                viol("route-direct/needs-blockwise-assembly-not-bool", "Site.needs_blockwise_assembly() returned %r" % (nba,))
+        except Exception as e:
+            outcome = "needs_blockwise_assembly raised " + type(e).__name__
+            viol("route-direct/needs-blockwise-assembly-raises", "Site.needs_blockwise_assembly() raised %r for a routable or unroutable path" % (e,))
 
     async def do_wkc(self, forced_query=None):
         from harness import reflink
